@@ -326,6 +326,16 @@ def run(rep, repo, tier):
                 # a per-rank loop that can be empty for an admissible cut-off leaves the run without any solve ('Not Solved')
                 from .c03 import check_rank_loop
                 check_rank_loop(rep, r, r.of('solve')[0], name, arity, 'C02.R6', cfg)
+                # the rank range is EMPTY when the cut-off lies beyond the last rank (or no pair is ranked at all): nothing the
+                # README forbids.  The criterion must then still solve the model - otherwise the run ends 'Not Solved' on a
+                # feasible instance and every later criterion is skipped.
+                in_loop = [e for e in r.of('solve') if [c for c in e.loops if c.kind == 'for']]
+                outside = [e for e in r.of('solve') if not [c for c in e.loops if c.kind == 'for']]
+                rep.check(bool(outside) or not in_loop, 'C02.R6', in_loop[0].where if in_loop else repo.method('LP_Solver', 'run_optimisations').where,
+                          'criterion %s solves the model even when its rank range is empty (cut-off beyond the last rank): a solve outside the per-rank loop' % cfg,
+                          got='%d solve(s), all inside the per-rank loop' % len(in_loop) if not outside else '%d outside' % len(outside),
+                          want='a solve after the loop when no rank was optimised', construct='%s empty rank range leaves the model unsolved' % name,
+                          loc=in_loop[0].loc if in_loop else None)
             rep.count('specialisations')
     # R3 closed classification
     for pc in (False, True):
